@@ -22,7 +22,10 @@ def make_planet(layers, n_per_layer=40, r0_frac=1e-3, n_first=None):
     R_prev = 0.0
     R_tot = layers[-1]["R"]
     for i, L in enumerate(layers):
-        n = (n_first or n_per_layer) if i == 0 else n_per_layer
+        if isinstance(n_per_layer, (list, tuple)):
+            n = int(n_per_layer[i])
+        else:
+            n = (n_first or n_per_layer) if i == 0 else n_per_layer
         lo = r0_frac * R_tot if i == 0 else np.nextafter(R_prev, np.inf)
         # the solver assigns slices to layers by `radius > upper_radius` AFTER dividing both by the planet radius when it
         # non-dimensionalises: make sure the first slice of the upper layer stays above the interface there too
